@@ -267,7 +267,9 @@ def real_kill(phase, crashes, budget, cap_s):
 
 
 def shard_real(col, phase, crashes, budget_kind):
-    budget = {"time": ["--maximum-search-time", "4", "--maximum-iterations", "3"],
+    # the search-time budget is generous (the iteration cap ends the search): a restarted worker must be
+    # able to die again with search time left
+    budget = {"time": ["--maximum-search-time", "30", "--maximum-iterations", "3"],
               "iterations": ["--maximum-iterations", "2"]}[budget_kind]
     cap = 240
     obs = real_kill(phase, crashes, budget, cap)
@@ -283,6 +285,9 @@ def shard_real(col, phase, crashes, budget_kind):
     if obs["crashes_happened"] == 0 and crashes > 0:
         col.violation(f"{fp_base}|harness:crash-point-not-reached", f"{obs}", data)
         return
+    col.distinct("real_crash_counts", (phase, budget_kind, obs["crashes_happened"]))
+    if obs["crashes_happened"] >= 2:
+        col.count("real_runs_with_two_crashes")
     if budget_kind == "iterations" and obs["crashes_happened"] > 1:
         col.violation(f"{fp_base}|restart-without-search-time",
                       f"worker was restarted although no search time is configured: {obs}", data)
@@ -319,11 +324,14 @@ def run(ctx):
     # real-process fault enumeration
     phases = ["after-import", "after-search", "assertion-generation", "before-export"]
     if ctx.quick:
-        jobs = [("after-import", 1, "time"), ("assertion-generation", 2, "time"),
+        jobs = [("after-import", 1, "time"), ("after-import", 2, "time"), ("assertion-generation", 2, "time"),
                 ("after-search", 1, "iterations")]
     else:
         jobs = [(p, c, b) for p in phases for c in (1, 2) for b in ("time", "iterations")]
     par.run_shards("props.c33_restart:shard_real", jobs, min(len(jobs), 6), ctx)
+    # vacuity: a run in which a RESTARTED worker died as well must have happened
+    ctx.require(ctx.col.counters.get("real_runs_with_two_crashes", 0) >= 1,
+                "vacuous: no real run in which a restarted worker crashed again")
     ctx.note("tlc", {"Tmax": tmax, "states_generated": generated, "distinct_states": distinct})
     ctx.level_keys["checker_cmd"] = "tlc -workers 1 -dump states MCRestart"
     ctx.exhaustive = True
